@@ -42,6 +42,8 @@ def check(prog, rep, tier):
                       'and manual stop')
     rep.rule('R02.e', 'no earlier session changes what the next one negotiates: the session hold time is '
                       'min(configured value, value proposed in this OPEN), never a value left by an earlier session')
+    rep.rule('R02.g', 'a failed or lost TCP connection is never ignored in a session state: every such row ends in '
+                      'Idle (or Active from OpenSent) with the reconnection pending')
     rep.rule('R02.f', 'Active is transient: no path ends in Active, the only connectTCP targets the BGP '
                       'port (so paths with pre-state Active are exempt from R02.a)')
     rep.assumptions += ['loseConnection() is followed by connectionLost() (Twisted)',
@@ -172,6 +174,29 @@ def check(prog, rep, tier):
     if seen_c and all(v == 'ok' for v in seen_c.values()):
         rep.ok('R02.c', 'close-marks-disconnected', file='yabgp/core/protocol.py',
                found='%d closing cells mark the protocol as disconnected' % len(seen_c))
+
+    # ---------------------------------------------------------------- R02.g
+    from .. import profile as P
+    for ev in ('TCP_DOWN', 'TCP_FAIL'):
+        for state in ORDER:
+            if state == 'Active' and not active_persistent:
+                continue
+            rows = tab.get(ev, state)
+            badr = None
+            for r in rows:
+                okp, probs, alt = P.evaluate(P.PROFILE[ev][state], r)
+                if not okp:
+                    badr = (r, probs, alt)
+                    break
+            key = '%s@%s' % (ev, state)
+            if badr:
+                r, probs, alt = badr
+                rep.bad('R02.g', key, file=common.row_file(r) or 'yabgp/core/fsm.py', line=common.row_line(r),
+                        func='FSM.connection_failed', found='; '.join(probs) + ': the FSM keeps a session state on '
+                        'a dead transport, nothing restarts it before a timer (if any) expires',
+                        expected=alt, key=key, path=r.describe())
+            elif rows:
+                rep.ok('R02.g', key, file='yabgp/core/fsm.py', line=common.row_line(rows[0]))
 
     # ---------------------------------------------------------------- R02.e
     n_acc = 0
